@@ -36,11 +36,11 @@ sys.path.insert(0, os.path.join(ROOT, "engine"))
 # ---------------------------------------------------------------------------
 FLAVOURS = {
     #  name:   (cargo features, default-features, hooks, profile)
-    "asm": (["cshim"], True, True, "release"),
+    "asm": (["cshim", "b3"], True, True, "release"),
     "intr": (["intr"], True, True, "release"),
     "pure": (["pure"], True, True, "release"),
     "nostd": ([], False, True, "release"),
-    "plain": (["cshim"], True, True, "plain"),
+    "plain": (["cshim", "b3"], True, True, "plain"),
     "stock_no_avx512": (["no_avx512"], True, False, "release"),
     "stock_no_avx2": (["no_avx512", "no_avx2"], True, False, "release"),
     "stock_no_sse41": (["no_avx512", "no_avx2", "no_sse41"], True, False, "release"),
@@ -62,6 +62,8 @@ PROP_FLAVOURS = {
     "C09": {"quick": ["asm"], "thorough": ["asm", "plain"]},
     "C10": {"quick": ["asm"], "thorough": ["asm", "plain"]},
     "C11": {"quick": ["asm"], "thorough": ["asm", "plain"]},
+    "C12": {"quick": ["asm"], "thorough": ["asm", "plain"]},
+    "C13": {"quick": ["asm"], "thorough": ["asm", "plain"]},
     "C14": {"quick": ["asm"], "thorough": ["asm", "plain"]},
     "C15": {"quick": ["asm"], "thorough": ["asm", "plain"]},
     "C16": {"quick": ["asm"], "thorough": ["asm", "plain"]},
@@ -96,6 +98,8 @@ def flavour_bin(fl):
 def build_flavour(fl):
     feats, default, hooks, profile = FLAVOURS[fl]
     cmd = ["cargo", "build", "-q", "--profile", profile, "-p", "vcheck", "--target-dir", os.path.join(TARGET, fl)]
+    if "b3" in feats:
+        cmd += ["-p", "b3shim"]  # also builds the real b3sum binary from /repo/b3sum/src/main.rs
     if not default:
         cmd.append("--no-default-features")
     if feats:
